@@ -89,7 +89,7 @@ def draw_len(rng, maxlen=184):
 
 def op_lookup(rng, length=None, maxlen=184):
     n = draw_len(rng, maxlen) if length is None else length
-    return {'k': 'lookup', 'path': rng.text(n), 'vnode': rng.pick([0, 0, 1]) if rng.chance(0.08) else rng.randrange(1, 1 << 48)}
+    return {'k': 'lookup', 'path': rng.text(n), 'vnode': rng.pick([0, 0, 1, 2, 3, 3]) if rng.chance(0.25) else rng.randrange(1, 1 << 48)}     # few distinct ids: different lookups often share one
 
 
 def op_gstr(rng, sid, length=None):
